@@ -463,6 +463,11 @@ def _strkeys(env): return {k: v for k, v in env.items() if isinstance(k, str)}
 
 
 def numeric_probe(ob, seed, tries=4000, want=200):
+    if ob.lemmas: return None          # callee results are related by lemmas the sampler does not know: sampling would be unsound
+    return _numeric_probe(ob, seed, tries, want)
+
+
+def _numeric_probe(ob, seed, tries=4000, want=200):
     """fallback for undecided obligations without uninterpreted applications: evaluate at random admissible points.
     A numeric violation is a validated counterexample; agreement leaves the obligation undecided."""
     xs = list(ob.hyps) + [ob.goal]
